@@ -320,6 +320,13 @@ Definition rr_pixels (r : rrect) (st : style) : list (point * Z) :=
 Definition rr_styled_bounding_box (r : rrect) (st : style) : rect :=
   offset (rr_bounding_box r) (sat_u32_to_i32 (outside_stroke_width st)).
 
+(* ---- class of the known finding (FINDINGS-C06.md, known_findings.txt) ------------------------ *)
+(* some point of fill_area() lies outside stroke_area(): the two areas confine their radii separately *)
+Definition K06_rrect_fill_outside_stroke (r : rrect) (st : style) : bool :=
+  let fa := rr_fill_area r st in
+  let sa := rr_stroke_area r st in
+  existsb (fun p => rr_contains fa p && negb (rr_contains sa p)) (points (rr_bounding_box fa)).
+
 (* ---- pixel maps ---------------------------------------------------------------------------- *)
 (* The pixel writes a target with bounding box `bb` performs for fill_solid calls: the points of the
    area, row-major, that lie inside `bb` (the meaning shared by the trait default
